@@ -6,8 +6,11 @@ from . import staging
 from .api import merge, jsonable, case_hash
 
 ROOT = staging.VERIF_ROOT
-EVIDENCE_DIR = os.path.join(ROOT, 'evidence')
-REPLAY_DIR = os.path.join(ROOT, 'replays')
+# VERIF_OUT_DIR redirects evidence and replays (used only when trying the checks against a seeded change in a scratch worktree,
+# so that the committed evidence always describes /repo itself)
+_OUT = os.environ.get('VERIF_OUT_DIR')
+EVIDENCE_DIR = os.path.join(_OUT or ROOT, 'evidence')
+REPLAY_DIR = os.path.join(_OUT or ROOT, 'replays')
 KNOWN = os.path.join(ROOT, 'known_findings.json')
 
 def load_known():
